@@ -566,6 +566,44 @@ CLAIMED = {
             "on eig/log/sqrtm (entropies, fidelity, trace distance, relative entropy, mutual information, sqrt_matrix), "
             "registers above 3 qubits, non-numpy interfaces, check_state=True and sparse expand_matrix are not covered.",
             "DESIGN.md 7", "E2"),
+    "C35": ("other",
+            "exactness of a rule {(c_i, s_i)} for a spectrum W at order n is the finite linear system sum_i c_i e^{i w "
+            "s_i} = (i w)^n for w in W, -W and 0. The real closed-form body of _get_shift_rule (taken from the working "
+            "tree's AST, decorators stripped) runs on exact scalars through a numpy shim (symbolic f_min > 0, sin(k "
+            "pi/4R) as (z^k - z^-k)/2i) and is decided modulo the cyclotomic polynomial Phi_8R(z); the real "
+            "_iterate_shift_rule, _iterate_shift_rule_with_multipliers and _combine_shift_rules run on sympy symbols and "
+            "are decided by polynomial expansion (power law, tensor product, modular shift reduction under the proved "
+            "period condition w*T in 2 pi Z from the real frequencies_to_period); float behaviour is a stratified bounded "
+            "sweep of generate_shift_rule / generate_multi_shift_rule and process_shifts",
+            "Equidistant closed form exact for R = 1..5 and every f_min > 0; iterated rules (2 and 4 terms, orders 2-3, "
+            "with and without period) equal the n-th power of the first-order rule, multi-parameter rules equal the "
+            "product of the per-axis rules (2x2, 2x4, 2x2x2) - size-bounded exact proofs; 13 bounded float stand-ins (5 "
+            "strata of spectra, orders 1-3, custom shifts, process_shifts). Fixed findings F33 (equidistant "
+            "misclassification) and F36 (truncated period); open finding F34: default shifts that make the sine matrix "
+            "singular, e.g. (1,3), (0.5,1.5), (1,2,4), only warn and return a wrong rule.",
+            "Trusted: the numpy shim (pi, arange, concatenate, stack, sin, allclose, sort), sympy, np.gcd; exactness is "
+            "stated on exponentials (trigonometric polynomials are their linear combinations); the non-equidistant linalg "
+            "solve is covered only by the sweep; R > 5, spectra with more than 5 decimals at order > 1, "
+            "generate_shifted_tapes/param_shift are not covered.",
+            "DESIGN.md 7", "E2"),
+    "C60": ("other",
+            "E2-style exact check: the real ClassicalShadow kernels (local_snapshots, global_snapshots, expval / "
+            "pauli_expval, median_of_means) are run on the COMPLETE ensemble of recipe/outcome records of an n-qubit "
+            "register (3^n x 2^n records); their exact dyadic outputs are weighted with the Born probability of each "
+            "record for a generic symbolic density matrix rho (every entry an independent complex symbol; no hermiticity, "
+            "positivity or trace assumption), written independently from reference unitaries; sum p*snapshot == rho and "
+            "sum p*estimate == tr(rho P) for all 4^n Pauli words are decided as polynomial identities in normal form; the "
+            "batching structure of median_of_means is enumerated",
+            "Every local snapshot is 3 U^dagger|b><b|U - 1; the snapshot average over all recipes and outcomes with exact "
+            "probabilities is exactly rho; the k=1 expectation estimator averages to tr(rho P) for every Pauli word "
+            "(incl. identity factors), is linear on Hamiltonians and elementwise on lists; median_of_means takes "
+            "consecutive, disjoint, non-empty batches covering all T records (fixed finding F35: empty trailing batches "
+            "gave nan) - size-bounded: n <= 2 (3 in thorough), T <= 12. Device shadow measurements (documented form of "
+            "bits/recipes, Born statistics within 6 sigma at 30000 shots) are bounded stand-ins only.",
+            "Trusts vf/symx normal form, refs/gates.py reference unitaries; RNGs assumed, not modelled; the sampling loop "
+            "of process_state_with_shots and its density-matrix variant, entropy, median of means with k > 1 as an "
+            "estimator, snapshots=/wires= sub-selection, other interfaces and shot vectors are not covered.",
+            "DESIGN.md 7", "E2"),
     "C61": ("proof",
             "contract on step/step_and_cost/apply_grad/compute_grad of the six gradient optimizers: outputs == documented "
             "update rule; real methods executed on sympy-backed symbolic scalars from an arbitrary accumulator state with an "
